@@ -114,6 +114,12 @@ def check(case, ctx):
     pc = tuple(P(c) for c in coords)
     pd_arg = P(d_arg) if not isinstance(d_arg, tuple) else tuple(P(x) for x in d_arg)
     pw_arg = None if w_arg is None else (P(w_arg) if not isinstance(w_arg, tuple) else tuple(P(x) for x in w_arg))
+    if vbuild.plain_flag(case):
+        # the same object is used on another (mirrored, shorter, shifted and shrunk) data set first: a reducer holds parameters only, nothing may carry over
+        try:
+            vbuild.quiet(reducer.filter, tuple(np.ravel(c)[::-1][:-1] * 0.5 + 3.25 for c in coords), np.ravel(data[0])[::-1][:-1] * 1.0)
+        except Exception:  # noqa: BLE001 - only its side effects matter here
+            pass
     out = reducer.filter(pc, pd_arg, pw_arg) if weights is not None else reducer.filter(pc, pd_arg)
     ctx.check(isinstance(out, tuple) and len(out) == 2, "filter must return (coordinates, data)")
     out_coords, out_data = out
